@@ -86,6 +86,27 @@ def explore {σ : Type} [BEq σ] [Hashable σ] (succ : σ → List σ) (isTermin
     (cap : Nat) (s0 : σ) : Explored σ :=
   exploreLoop succ isTerminal cap [s0] (Std.HashSet.emptyWithCapacity.insert s0) {}
 
+/-- one pseudo-random maximal run (linear congruential choice among the enabled successors) -/
+partial def sampleRun {σ : Type} (succ : σ → List σ) (isTerminal : σ → Bool) (seed fuel : Nat) (s : σ) :
+    Option σ :=
+  if isTerminal s then some s
+  else if fuel == 0 then none
+  else
+    let nexts := succ s
+    if nexts.isEmpty then none
+    else
+      let seed' := (seed * 6364136223846793005 + 1442695040888963407) % 18446744073709551616
+      match nexts[(seed' / 65536) % nexts.length]? with
+      | some n => sampleRun succ isTerminal seed' (fuel - 1) n
+      | none => none
+
+def sampleMany {σ : Type} (succ : σ → List σ) (isTerminal : σ → Bool) (seed runs : Nat) (s0 : σ) :
+    List σ × Nat :=
+  (List.range runs).foldl (fun (acc : List σ × Nat) i =>
+    match sampleRun succ isTerminal (seed * 1000003 + i * 7919 + 1) 100000 s0 with
+    | some t => (t :: acc.1, acc.2)
+    | none => (acc.1, acc.2 + 1)) ([], 0)
+
 def dedupJson (l : List Json) : List Json :=
   (l.map (·.compress)).eraseDups.filterMap fun s => (Json.parse s).toOption
 
@@ -199,6 +220,21 @@ def handle (j : Json) : Except String Json := do
       (fun s => s.outcome.isSome && s.result.isSome) cap (IT.init nw c.n)
     return Json.mkObj [("terminals", Json.arr (dedupJson (r.terminals.map (itObs c))).toArray),
       ("stuck", toJson r.stuck), ("truncated", toJson r.truncated), ("states", toJson r.states)]
+  | "ac_sample" =>
+    let (c, nw, nt) ← parseACfg j
+    let seed := (Driver.getNat j "seed").toOption.getD 1
+    let runs := (Driver.getNat j "runs").toOption.getD 50
+    let r := sampleMany (acSucc c) (fun s => s.outcome.isSome) seed runs (AC.init nw nt)
+    return Json.mkObj [("terminals", Json.arr (dedupJson (r.1.map acObs)).toArray),
+      ("stuck", toJson (r.2 != 0)), ("sampled", toJson true)]
+  | "it_sample" =>
+    let (c, nw) ← parseICfg j
+    let seed := (Driver.getNat j "seed").toOption.getD 1
+    let runs := (Driver.getNat j "runs").toOption.getD 50
+    let r := sampleMany (fun s => ((itLabels s).filterMap (itStep c s)).map itNorm)
+      (fun s => s.outcome.isSome && s.result.isSome) seed runs (IT.init nw c.n)
+    return Json.mkObj [("terminals", Json.arr (dedupJson (r.1.map (itObs c))).toArray),
+      ("stuck", toJson (r.2 != 0)), ("sampled", toJson true)]
   | "ac_run" =>
     let (c, nw, nt) ← parseACfg j
     let ls ← (← Driver.getArr j "schedule").toList.mapM parseALabel
